@@ -10,6 +10,7 @@ Tie
   * correspondence `handler`:  every XML exception handler class rendered with generated (msg, code, locator)
                                against Escape.exception_doc of the generated template.
   * correspondence `tokens`:   the Python tokenizer used by the oracle against Escape.tokenize.
+  * correspondence `welcome`:  MapProxyApp.welcome_response against the generated Gen_exc_templates.welcome_response.
   * correspondence `appdoc`:   XML exception documents produced by the WHOLE application on a malformed-request
                                stream; the message is recovered with lxml and the body must be exactly
                                exception_doc template message code locator.
@@ -319,7 +320,7 @@ def part_handlers(ctx, table, codes, locs):
                 tok_descr.append({'document': cps(doc), 'python_tokens': [(k, cps(t)) for k, t in toks]})
     ctx.corr_check(
         'handler', 'Escape Gen_exc_templates', 'list piece * list Z * option (list Z) * option (list Z) * list Z', terms,
-        "fun c => let '(t, msg, code, loc, doc) := c in str_eqb (exception_doc t msg code loc) doc",
+        "fun c => let '(t, msg, code, loc, doc) := c in str_eqb (gen_exception_doc t msg code loc) doc",
         lambda i: descr[i], shard=150)
     ctx.corr_check(
         'tokens', 'Escape', 'list Z * list (Z * list Z)', tok_terms,
@@ -347,7 +348,9 @@ def oracle_document(ctx, where, body, msg, code_loc, cls, render, rep):
         return
     raw = toks[diff[0]][1]
     import html
-    if html.unescape(raw).strip(' \t\r\n') != msg.strip(' \t\r\n') or check_escaped_text(raw):
+    # an implementation may replace characters that XML cannot represent by U+FFFD (proposed repair of finding C18-a)
+    sanitized = ''.join(c if xml_char_ok(c) else '\ufffd' for c in msg)
+    if html.unescape(raw).strip(' \t\r\n') not in (msg.strip(' \t\r\n'), sanitized.strip(' \t\r\n')) or check_escaped_text(raw):
         ctx.fail(where + ',text-not-message', 'text node %r does not decode to the message %r' % (raw, msg), rep)
         return
     bad = sorted(set(c for c in body if not xml_char_ok(c)))
@@ -362,7 +365,7 @@ def oracle_document(ctx, where, body, msg, code_loc, cls, render, rep):
         ctx.fail(where + ',not-wellformed', 'lxml rejects the document for message %r: %s' % (msg, e), rep)
         return
     norm = lambda s: s.replace('\r\n', '\n').replace('\r', '\n').strip(' \t\n')  # noqa
-    if norm(text) != norm(msg):
+    if norm(text) not in (norm(msg), norm(sanitized)):
         ctx.fail(where + ',lxml-text', 'lxml reads the text %r for the message %r' % (text, msg), rep)
 
 
@@ -767,7 +770,7 @@ def first_param(qs, key):
 def oracle_response(ctx, name, res, rep, req_size, base, skeletons, appdocs, recheck=None):
     sig = 'service=%s,' % name.split('.')[0]
     if 'headers' in res and isinstance(res['headers'], list):
-        # F18c: the in-image exception handlers declare the raw FORMAT parameter as Content-type
+        # C18-c: the in-image exception handlers declare the raw FORMAT parameter as Content-type
         fmt = first_param(rep['QUERY_STRING'], 'format')
         exc = first_param(rep['QUERY_STRING'], 'exceptions') or ''
         cts = [h[1] for h in res['headers'] if isinstance(h, tuple) and len(h) == 2 and str(h[0]).lower() == 'content-type']
@@ -1017,6 +1020,9 @@ def part_app(ctx, skeletons):
         if status == '500' and kind == 'text':
             ctx.count('app:catch-all-internal-error')
     logging.disable(logging.NOTSET)
+    ctx.notes.append('answers produced by the catch-all of MapProxyApp.__call__ (500 "internal error", allowed by the property): %d of %d '
+                     'requests; e.g. unparsable WIDTH/BBOX, GetFeatureInfo / GetLegendGraphic with a failing upstream, demo pages with '
+                     'unknown layers' % (ctx.distribution.get('app:catch-all-internal-error', 0), len(stream)))
     # whole-application exception documents against the model
     seen, terms, descr = set(), [], []
     for tpl, msg, code, loc, text, rep in appdocs:
@@ -1029,7 +1035,7 @@ def part_app(ctx, skeletons):
     ctx.count('app:distinct-exception-documents', len(terms))
     ctx.corr_check(
         'appdoc', 'Escape Gen_exc_templates', 'list piece * list Z * option (list Z) * option (list Z) * list Z', terms,
-        "fun c => let '(t, msg, code, loc, doc) := c in str_eqb (exception_doc t msg code loc) doc",
+        "fun c => let '(t, msg, code, loc, doc) := c in str_eqb (gen_exception_doc t msg code loc) doc",
         lambda i: descr[i], shard=150)
 
 
